@@ -184,12 +184,24 @@ def replay(beh, gname, workdir, tag):
                 elif name == "Mutate":
                     objs[act["o"] - 1].data += 500000
                 elif name == "Slice":
-                    objs.append(objs[act["o"] - 1].get_slice(act["l"], act["r"]))
+                    objs.append(objs[act["o"] - 1].get_slice(act.get("al", act["l"]), act.get("ar", act["r"])))
                 elif name == "Dedrift":
                     fr = objs[act["o"] - 1]
                     rate = act["q"] / 4.0 * g["df"] / g["dt"]
                     if k % 2:
-                        new = stg.dedrift(fr, rate)
+                        # an explicit rate (zero included) wins over a rate in the metadata
+                        had = "drift_rate" in fr.metadata
+                        old = fr.metadata.get("drift_rate")
+                        fr.add_metadata({"drift_rate": 1.25 * g["df"] / g["dt"]})
+                        try:
+                            new = stg.dedrift(fr, rate if k % 4 == 1 else np.float64(rate))
+                        finally:
+                            if had:
+                                fr.metadata["drift_rate"] = old
+                            else:
+                                del fr.metadata["drift_rate"]
+                        if not had and "drift_rate" in new.metadata and new.metadata is not fr.metadata:
+                            del new.metadata["drift_rate"]
                     else:
                         had = "drift_rate" in fr.metadata
                         old = fr.metadata.get("drift_rate")
